@@ -27,12 +27,4 @@ def parseLine (s : String) : Except String J :=
   | .ok j => .ok (ofLean j)
   | .error e => .error e
 
-def J.getD (j : J) (k : String) (d : J := .null) : J := (j.get? k).getD d
-def J.getStr (j : J) (k : String) : String := (j.getD k).strD ""
-def J.getInt (j : J) (k : String) : Int := ((j.getD k).int?).getD 0
-def J.getBool (j : J) (k : String) : Bool := match j.getD k with | .bool b => b | _ => false
-def J.getArr (j : J) (k : String) : List J := (j.getD k).items
-def J.opt (j : J) (k : String) : Option J := match j.get? k with | some .null => none | o => o
-def J.strList (j : J) : List String := j.items.filterMap J.str?
-
 end Mc
